@@ -375,11 +375,10 @@ impl Variant {
             match round_left {
                 Self::VInteger(i_left) => match round_right {
                     Self::VInteger(i_right) => Ok(Self::VInteger(i_left % i_right)),
-                    Self::VLong(_) => Err(VariantError::Overflow),
-                    _ => Err(VariantError::TypeMismatch),
+                    // a rounded operand that does not fit an INTEGER (LONG, or beyond: DOUBLE)
+                    _ => Err(VariantError::Overflow),
                 },
-                Self::VLong(_) => Err(VariantError::Overflow),
-                _ => Err(VariantError::TypeMismatch),
+                _ => Err(VariantError::Overflow),
             }
         }
     }
